@@ -60,7 +60,9 @@ def _compare(ctx, what, desc, real, ans, handed=None):
         ctx.disagree("cli:source-handed-to-loader", desc, repr(handed)[:800], repr(m_src)[:800])
 
 
-def formatting(ctx, model, count):
+def formatting(ctx, model, count, reports=False):
+    """reports=True (C13): besides the comparison with the model, every MPilot error the loader / run raises - a ProgramError or not, with a line or without -
+    must be reported by the tool: no exception escapes, the exit status is not 0, the error's own text is on standard error"""
     import mpilot.cli.mpilot as cli
     from mpilot import exceptions as mx
     from mpilot.libraries.eems import exceptions as ex
@@ -106,7 +108,9 @@ def formatting(ctx, model, count):
             elif kind < 0.2:
                 exc = rng.choice([ValueError("v"), KeyError("k"), SyntaxError("s"), RuntimeError("r")])
             elif kind < 0.3:
-                exc = rng.choice([nx.NoSuchVariable("p.nc", "v", lineno=ln), nx.InvalidFuzzyData("p.nc", lineno=ln) if False else mx.MPilotError("plain")]) if rng.random() < 0.7 else mx.ProgramError(ln, None)
+                # MPilot errors that are no ProgramErrors (the NetCDF library's, the plain one Program() raises for clashing libraries, a plug-in's own)
+                exc = rng.choice([nx.NoSuchVariable("p.nc", "v", lineno=ln), nx.InvalidFuzzyData("p.nc", lineno=ln), nx.InvalidPositiveData("p.nc", "Positive Float", lineno=ln),
+                                  mx.MPilotError("plain"), type("PluginError", (mx.MPilotError,), {})("Problem: p\nSolution: s")]) if rng.random() < 0.7 else mx.ProgramError(ln, None)
             else:
                 exc = rng.choice([
                     lambda: mx.CommandDoesNotExist("Nope", lineno=ln), lambda: mx.DuplicateResult("R", lineno=ln),
@@ -127,6 +131,16 @@ def formatting(ctx, model, count):
             ctx.count("cli_format:%s" % ("done" if exc is None else type(exc).__name__))
             ctx.count("cli_line_ends:" + style)
             cases.append(({"file_text": text, "exception": repr(exc), "lineno": ln}, real, state.get("source")))
+            has_line = isinstance(exc, mx.ProgramError) and getattr(exc, "lineno", None) is not None
+            if reports and isinstance(exc, mx.MPilotError) and (not has_line or 1 <= exc.lineno <= nfile):       # (a line beyond the file is no line of the file: Model/Cli)
+                desc = {"file_text": text, "loader_raises" if state["when"] == "load" else "run_raises": "%s: %s" % (type(exc).__name__, exc), "is_ProgramError": isinstance(exc, mx.ProgramError),
+                        "exit": real[0], "stderr": real[1][-400:], "escaped": real[2]}
+                if real[2] != "-":
+                    ctx.fail("the command-line tool died with %s although what was raised is the MPilot error %s" % (real[2], type(exc).__name__), desc)
+                elif real[0] == 0:
+                    ctx.fail("the command-line tool exited 0 although %s was raised" % type(exc).__name__, desc)
+                elif str(exc) not in real[1]:
+                    ctx.fail("the command-line tool did not print the text of %s to standard error" % type(exc).__name__, desc)
             lines_out.append(_line(True, path, text, _outcome(exc)))
             if i % 25 == 0:
                 gone = os.path.join(tmp, "missing %d é.mpt" % i)
